@@ -260,13 +260,87 @@ pub fn run(args: &Args) -> ! {
             }
         }
     }
+    // Boundary consistency (added after seeded change C15): whether a partner exactly W old joins is
+    // not fixed by the property text, but the choice must not depend on unrelated arrivals. Fine-grained
+    // in-order histories (ms timestamps around the boundary, window 1 s) on the real JoinBuffer: for
+    // every history whose last arrival has a same-key partner exactly 1 s old and none strictly inside
+    // the window, record whether it joined; both answers occurring is a violation.
+    {
+        let ts_ms: [i64; 5] = [0, 950, 1000, 1950, 2000];
+        let k = 2 * ts_ms.len(); // source × timestamp, one key
+        let maxlen = args.tier.pick(4usize, 5usize);
+        let space = SeqSpace::new(k, 2, maxlen);
+        let (acc, done) = mc::par_indices(space.total(), args.threads, 512, |i, acc| {
+            let mut idx = Vec::new();
+            space.decode(i, &mut idx);
+            let h: Vec<(usize, i64)> = idx.iter().map(|d| (d % 2, ts_ms[d / 2])).collect();
+            if !h.windows(2).all(|w| w[0].1 <= w[1].1) {
+                return true; // in-order histories only
+            }
+            let (ls, lt) = h[h.len() - 1];
+            let other = 1 - ls;
+            let partners: Vec<i64> = h[..h.len() - 1].iter().filter(|(s, _)| *s == other).map(|(_, t)| lt - *t).collect();
+            let on_boundary = partners.iter().any(|d| *d == 1000);
+            let inside = partners.iter().any(|d| *d < 1000);
+            if !on_boundary || inside {
+                return true;
+            }
+            let sources = vec!["S0".to_string(), "S1".to_string()];
+            let mut keys = FxHashMap::default();
+            for sname in &sources {
+                keys.insert(sname.clone(), "k".to_string());
+            }
+            let joined = mc::catch(|| {
+                let mut jb = JoinBuffer::new(sources.clone(), keys.clone(), Duration::seconds(1));
+                let mut last = None;
+                for (i, (src, t)) in h.iter().enumerate() {
+                    let mut e = varpulis_runtime::Event::new_at(format!("S{src}"), chrono::DateTime::from_timestamp_millis(1_700_000_000_000 + *t).unwrap());
+                    e.data.insert("id".into(), varpulis_core::Value::Int(i as i64));
+                    e.data.insert("k".into(), varpulis_core::Value::str("x"));
+                    last = jb.add_event(&sources[*src], e);
+                }
+                last.is_some()
+            });
+            acc.evaluations += 1;
+            match joined {
+                Ok(true) => {
+                    acc.count("fine_grid_boundary_partner_joined", 1);
+                    if acc.counts.get("fine_grid_boundary_partner_joined") == Some(&1) {
+                        acc.samples.push(json!({"family":"boundary consistency","window":"1s","arrivals_ms":h,"joined":true}));
+                    }
+                }
+                Ok(false) => {
+                    acc.count("fine_grid_boundary_partner_not_joined", 1);
+                    if acc.counts.get("fine_grid_boundary_partner_not_joined") == Some(&1) {
+                        acc.samples.push(json!({"family":"boundary consistency","window":"1s","arrivals_ms":h,"joined":false}));
+                    }
+                }
+                Err(p) => acc.viol.add("C15:in_order:panic", format!("fine-grid history {h:?}: panic {p}"), json!({"fine_grid_arrivals_ms": h}), h.len()),
+            }
+            true
+        });
+        let _ = done;
+        let j = acc.counts.get("fine_grid_boundary_partner_joined").copied().unwrap_or(0);
+        let nj = acc.counts.get("fine_grid_boundary_partner_not_joined").copied().unwrap_or(0);
+        let examples: Vec<J> = acc.samples.iter().filter(|s| s["family"] == "boundary consistency").cloned().collect();
+        rep.traces += acc.evaluations;
+        rep.absorb(acc);
+        if j > 0 && nj > 0 {
+            rep.violation(mc::Violation {
+                sig: "C15:in_order:boundary_choice_depends_on_unrelated_arrivals".into(),
+                desc: format!("in-order arrivals, window 1 s: a same-key partner exactly 1 s old joined in {j} histories and did not join in {nj} histories (examples: {})", serde_json::to_string(&examples).unwrap_or_default()),
+                case: json!({"fine_grid_examples": examples}),
+                size: 1,
+            });
+        }
+    }
     rep.states = states;
     rep.transitions = rep.extra.get("arrivals_executed").and_then(|v| v.as_u64()).unwrap_or(0);
     rep.set("bounds", json!({"history_length": {"joinbuffer_2way": plan[0].2, "joinbuffer_3way": plan[1].2, "engine_2way": plan[2].2, "engine_3way": plan[3].2}, "window_s": [1, 2, 3], "caps": [1, 2, 1000], "ts_grid_s": [0, 1, 2, 3, 4], "keys": KEYS}));
     rep.sample(json!({"join":"2-way JoinBuffer","window":"3s","arrivals":["B(k=x, ts=0s)","A(k=x, ts=4s)","A(k=x, ts=2s)"]}));
     rep.sample(json!({"join":"3-way engine","program":"stream J = join(A, B, C).on(A.k == B.k and B.k == C.k).window(2s).emit(a: A.id, b: B.id, c: C.id)"}));
     rep.rule = format!("Exhaustive: every arrival history over source × key{{x,y}} × ts ∈ {{0..4}} s whose disorder is < W, W ∈ {{1,2,3}} s: JoinBuffer 2-way (length ≤ {}) and 3-way (≤ {}) with per-key cap ∈ {{1,2,1000}}; Engine join programs 2-way (≤ {}) and 3-way (≤ {}). The output (or silence) of the last arrival of each history is compared with the list model. Non-trivial = the model expects a joined output for the last arrival. transitions = add_event / process calls executed; states = distinct per-arrival output vectors.", plan[0].2, plan[1].2, plan[2].2, plan[3].2);
-    rep.assume("don't-care: a partner exactly W older than the arriving event (`within the join window`): joined or not are both accepted; the observed choice is counted in the evidence");
+    rep.assume("don't-care: a partner exactly W older than the arriving event (`within the join window`): joined or not are both accepted; the observed choice is counted in the evidence, but for in-order arrivals it must be the same choice in every history (fine-grid boundary family)");
     rep.assume("the per-key cap is read as in DESIGN §3: a source contributes only its last `cap` arrivals for the key; the property text itself does not mention the cap");
     rep.assume("disorder is bounded by < W so that every earlier event is at most W newer than the arriving one; `within the window of the arriving event` then only looks back");
     rep.assume("engine programs join event types A, B, C directly (`join(A, B)` with undeclared streams is treated as a join of event types by the compiler)");
